@@ -317,3 +317,545 @@ Proof.
     pose proof (keep_some_inv _ _ _ _ _ _ _ _ Ek) as Hall. rewrite Forall_forall in Hall. exact (Hall r Hin Hr).
   - split; [|discriminate]. split; [intros _; exact (keep_none _ _ _ _ _ _ _ Ek)|reflexivity].
 Qed.
+
+(* ================================================================== *)
+(* Export of a builder in correspondence: the exported STATE           *)
+(* ================================================================== *)
+
+(* export_corr (C07) says the square is the layout; here is what the exported builder
+   holds: the same transactions, the PFBs wrapped with the layout's real share indexes,
+   and the (element, index) pairs of the blob loop are the layout's placed blobs *)
+Lemma corr_start max thr b normals btxs : corr max thr b normals btxs ->
+  export_start b = lay_start normals btxs.
+Proof.
+  intros C. destruct (corr_counters _ _ _ _ _ C) as [Htc Hpc].
+  unfold export_start, lay_start. rewrite Htc, Hpc. lia.
+Qed.
+
+Lemma corr_place max thr b normals btxs : 1 <= thr -> corr max thr b normals btxs ->
+  map to_lbi (export_place b) = lay_placed thr normals btxs.
+Proof.
+  intros Ht C. unfold export_place.
+  rewrite (corr_start _ _ _ _ _ C), (inv_thr _ _ _ (co_acc _ _ _ _ _ C)), (co_blobs _ _ _ _ _ C).
+  symmetry. apply placed_eq; [exact Ht|exact (co_ok _ _ _ _ _ C)].
+Qed.
+
+Lemma corr_el_ok max thr b normals btxs : corr max thr b normals btxs -> Forall el_ok (bd_blobs b).
+Proof. intros C. rewrite (co_blobs _ _ _ _ _ C). apply all_els_el_ok, (co_ok _ _ _ _ _ C). Qed.
+
+Theorem export_corr_state max thr b normals btxs : 1 <= thr -> max * max < 2097152 ->
+  corr max thr b normals btxs ->
+  exists b', export b = Ok (b', layout thr normals btxs) /\
+    bd_txs b' = normals /\
+    wrapped (bd_pfbs b') = wrappers (lay_placed thr normals btxs) 0 btxs /\
+    length (bd_pfbs b') = length btxs /\
+    bd_blobs b' = sort_elements (bd_blobs b) /\
+    (builder_is_empty b = false -> bd_done b' = true).
+Proof.
+  intros Ht Hmax C. destruct (export_corr max thr b normals btxs Ht Hmax C) as (b' & E).
+  exists b'. split; [exact E|].
+  pose proof (co_acc _ _ _ _ _ C) as I. pose proof (inv_thr _ _ _ I) as Hthr.
+  pose proof (corr_el_ok _ _ _ _ _ C) as Hel.
+  assert (Ht' : 1 <= bd_thr b) by (rewrite Hthr; exact Ht).
+  destruct (export_layout b b' _ Ht' Hel (binv_not_empty b (co_binv _ _ _ _ _ C)) E)
+    as (Htx & Hbl & _ & _ & Hshape & Hrec & _).
+  split; [rewrite Htx; exact (co_txs _ _ _ _ _ C)|].
+  pose proof (corr_fits _ _ _ _ _ Ht C) as Hfit.
+  assert (Hest : estimate thr normals btxs < 2097152) by lia.
+  pose proof (placed_index_small thr normals btxs Ht Hest) as Hsmall.
+  pose proof (corr_place _ _ _ _ _ Ht C) as Hpl.
+  split; [|split; [|split]].
+  - rewrite <- Hpl. unfold export_place in *.
+    rewrite (corr_start _ _ _ _ _ C), Hthr, (co_blobs _ _ _ _ _ C), (co_pfbs _ _ _ _ _ C) in *.
+    change (wrapped (bd_pfbs b')) with (map wrap_pfb (bd_pfbs b')).
+    apply recorded_wrappers.
+    + rewrite <- (co_blobs _ _ _ _ _ C). apply (co_binv _ _ _ _ _ C).
+    + exact Hrec.
+    + rewrite <- Hpl in Hsmall. rewrite Forall_map in Hsmall. eapply Forall_impl; [|exact Hsmall].
+      intros p Hp. unfold to_lbi in Hp. cbn [lb_index] in Hp. lia.
+  - rewrite (pfb_shape_length _ _ Hshape), (co_pfbs _ _ _ _ _ C), map_length. reflexivity.
+  - exact Hbl.
+  - intros He. exact (export_done b b' _ He E).
+Qed.
+
+(* ================================================================== *)
+(* C06 (ii): the estimate never under-counts; Export never fails        *)
+(* ================================================================== *)
+
+(* Histories of appends (accepted or refused) from NewBuilder, as in C06: [reach].  With
+   acceptable blobs in every blob transaction, the builder reached is in correspondence
+   with the lists of the accepted transactions. *)
+Definition aop_ok (op : aop) : Prop := match op with ATx _ => True | ABlobTx t => c07_btx_ok t end.
+
+Lemma astep_corr max thr b normals btxs op : 1 <= thr -> corr max thr b normals btxs -> aop_ok op ->
+  exists normals' btxs', corr max thr (astep b op) normals' btxs'.
+Proof.
+  intros Ht C Hop. destruct op as [tx|t]; cbn [astep aop_ok] in *.
+  - destruct (step_tx max thr b normals btxs tx Ht C) as (_ & Hacc & Hrej).
+    destruct (snd (append_tx b tx)); [exists (normals ++ [tx]), btxs; apply Hacc|exists normals, btxs; apply Hrej]; reflexivity.
+  - destruct (step_blob_tx max thr b normals btxs t Ht C Hop) as (_ & Hacc & Hrej).
+    destruct (snd (append_blob_tx b t)); [exists normals, (btxs ++ [t]); apply Hacc|exists normals, btxs; apply Hrej]; reflexivity.
+Qed.
+
+Theorem reach_corr max thr ops : 1 <= thr -> Forall aop_ok ops ->
+  exists normals btxs, corr max thr (reach max thr ops) normals btxs.
+Proof.
+  intros Ht Hops. unfold reach.
+  assert (G : forall ops b n bt, Forall aop_ok ops -> corr max thr b n bt ->
+              exists n' bt', corr max thr (fold_left astep ops b) n' bt').
+  { clear ops Hops. induction ops as [|op ops IH]; intros b n bt Hops C; cbn [fold_left].
+    - exists n, bt. exact C.
+    - apply Forall_cons_iff in Hops as [Hop Hops].
+      destruct (astep_corr max thr b n bt op Ht C Hop) as (n1 & bt1 & C1). exact (IH _ _ _ Hops C1). }
+  exact (G ops _ [] [] Hops (corr_empty max thr)).
+Qed.
+
+(* the shares before the tail padding: the two transaction sequences, the reserved padding
+   and the blobs with their namespace padding, i.e. everything up to the end of the last
+   blob (or of the PFB sequence when there is no blob) *)
+Definition occupied (thr : N) (normals : list bytes) (btxs : list blob_tx) : N :=
+  lenN (lay_body thr normals btxs).
+
+Lemma region_ns_in (Q : namespace -> Prop) : forall l cur pns pver, length pns = 29%nat ->
+  Forall (fun e => blob_ok (lb_blob e)) l -> Q pns -> Forall (fun e => Q (lb_ns e)) l ->
+  Forall (fun s => Q (sh_ns s)) (LayoutShapeProofs.region cur pns pver l).
+Proof. exact (region_ns_all Q). Qed.
+
+(* no share of the occupied part is a tail padding share: the occupied part is exactly the
+   square up to where the tail padding begins *)
+Lemma lay_body_not_tail thr normals btxs : 1 <= thr -> Forall lay_btx_ok btxs ->
+  estimate thr normals btxs < 2097152 ->
+  Forall (fun s => sh_ns s <> tail_padding_ns) (lay_body thr normals btxs).
+Proof.
+  intros Ht Hok Hest. destruct (lay_body_eq thr normals btxs Ht Hok Hest) as [-> _].
+  destruct (placed_facts thr normals btxs Hok) as (Hb & _ & Hbt).
+  repeat (apply Forall_app; split).
+  - eapply Forall_impl; [|apply compact_spec_ix_ns, length_tx_ns]. intros s ->. discriminate.
+  - eapply Forall_impl; [|apply compact_spec_ix_ns, length_pfb_ns]. intros s ->. discriminate.
+  - apply (region_ns_in (fun n => n <> tail_padding_ns)); [apply length_reserved_ns|exact Hb|discriminate|].
+    eapply Forall_impl; [|exact Hbt]. intros e [_ H] E. cbn beta in E. rewrite E, bytes_cmp_refl in H. discriminate.
+Qed.
+
+(* for every builder in correspondence: Export succeeds, the square is the occupied part
+   followed by tail padding only, and  occupied <= estimate = CurrentSize <= max^2 *)
+Theorem export_never_fails_corr max thr b normals btxs : 1 <= thr -> max * max < 2097152 ->
+  corr max thr b normals btxs ->
+  exists b' body ntail,
+    export b = Ok (b', body ++ repeat (padding_spec tail_padding_ns 0) ntail) /\
+    Forall (fun s => sh_ns s <> tail_padding_ns) body /\
+    (Z.of_N (lenN body) <= bd_cur b)%Z /\ bd_cur b = Z.of_N (estimate thr normals btxs) /\
+    (bd_cur b <= Z.of_N (max * max))%Z /\
+    lenN body + N.of_nat ntail
+      = blob_min_square_size (Z.to_N (bd_cur b)) * blob_min_square_size (Z.to_N (bd_cur b)).
+Proof.
+  intros Ht Hmax C. destruct (export_corr max thr b normals btxs Ht Hmax C) as (b' & E).
+  pose proof (corr_fits _ _ _ _ _ Ht C) as Hfit. pose proof (corr_cur _ _ _ _ _ Ht C) as Hcur.
+  assert (Hest : estimate thr normals btxs < 2097152) by lia.
+  pose proof (c07_btxs_lay _ (co_ok _ _ _ _ _ C)) as Hok.
+  destruct (lay_body_eq thr normals btxs Ht Hok Hest) as [_ Hlen].
+  exists b', (lay_body thr normals btxs),
+    (N.to_nat (lay_side thr normals btxs * lay_side thr normals btxs - lenN (lay_body thr normals btxs))).
+  rewrite E, layout_unfold. unfold tail_pad.
+  split; [reflexivity|]. split; [apply lay_body_not_tail; assumption|].
+  split; [lia|]. split; [exact Hcur|]. split; [lia|].
+  rewrite Hcur, N2Z.id. fold (lay_side thr normals btxs).
+  destruct (blob_min_square_size_spec (estimate thr normals btxs)) as (_ & Hcov & _).
+  fold (lay_side thr normals btxs) in Hcov. lia.
+Qed.
+
+(* ... hence for every history of appends *)
+Theorem export_never_fails_reach max thr ops : 1 <= thr -> max * max < 2097152 -> Forall aop_ok ops ->
+  let b := reach max thr ops in
+  exists b' body ntail,
+    export b = Ok (b', body ++ repeat (padding_spec tail_padding_ns 0) ntail) /\
+    Forall (fun s => sh_ns s <> tail_padding_ns) body /\
+    (Z.of_N (lenN body) <= bd_cur b)%Z /\ (bd_cur b <= Z.of_N (max * max))%Z /\
+    lenN body + N.of_nat ntail
+      = blob_min_square_size (Z.to_N (bd_cur b)) * blob_min_square_size (Z.to_N (bd_cur b)).
+Proof.
+  intros Ht Hmax Hops b. destruct (reach_corr max thr ops Ht Hops) as (normals & btxs & C). fold b in C.
+  destruct (export_never_fails_corr max thr b normals btxs Ht Hmax C)
+    as (b' & body & ntail & H1 & H2 & H3 & _ & H5 & H6).
+  exists b', body, ntail. repeat split; assumption.
+Qed.
+
+(* the builder Build / Construct export is such a builder: occupied <= estimate for the
+   square they return *)
+Theorem construct_occupied raws max thr sq : 1 <= thr -> (max <= 1024)%Z -> c07_raws_ok raws ->
+  construct raws max thr = Ok sq ->
+  exists normals btxs, split_ordered false raws [] [] = Some (normals, btxs) /\
+    sq = lay_body thr normals btxs ++ tail_pad thr normals btxs /\
+    Forall (fun s => sh_ns s <> tail_padding_ns) (lay_body thr normals btxs) /\
+    occupied thr normals btxs <= estimate thr normals btxs /\
+    estimate thr normals btxs <= Z.to_N max * Z.to_N max.
+Proof.
+  intros Ht Hmax Hraws H.
+  destruct (construct_ok_inv raws max thr sq Ht Hmax Hraws H) as (normals & btxs & Hs & -> & Hok & _ & Hfit & Hest).
+  exists normals, btxs. pose proof (c07_btxs_lay _ Hok) as Hlay.
+  split; [exact Hs|]. split; [apply layout_unfold|]. split; [apply lay_body_not_tail; assumption|].
+  split; [exact (proj2 (lay_body_eq thr normals btxs Ht Hlay Hest))|exact Hfit].
+Qed.
+
+Theorem build_occupied raws max thr sq kept : 1 <= thr -> (max <= 1024)%Z -> c07_raws_ok raws ->
+  build raws max thr = Ok (sq, kept) ->
+  exists normals btxs, keep (Z.to_N max * Z.to_N max) thr raws [] [] [] [] = Some (normals, btxs, kept) /\
+    sq = lay_body thr normals btxs ++ tail_pad thr normals btxs /\
+    Forall (fun s => sh_ns s <> tail_padding_ns) (lay_body thr normals btxs) /\
+    occupied thr normals btxs <= estimate thr normals btxs /\
+    estimate thr normals btxs <= Z.to_N max * Z.to_N max.
+Proof.
+  intros Ht Hmax Hraws H.
+  destruct (build_ok_inv raws max thr sq kept Ht Hmax Hraws H) as (normals & btxs & Hs & -> & Hok & _ & Hfit & Hest).
+  exists normals, btxs. pose proof (c07_btxs_lay _ Hok) as Hlay.
+  split; [exact Hs|]. split; [apply layout_unfold|]. split; [apply lay_body_not_tail; assumption|].
+  split; [exact (proj2 (lay_body_eq thr normals btxs Ht Hlay Hest))|exact Hfit].
+Qed.
+
+(* ================================================================== *)
+(* C04: the recorded share indexes, read from the square itself         *)
+(* ================================================================== *)
+
+(* ---- the order of the placed blobs: (namespace, transaction, position) ---- *)
+Definition pos_lt (a b : lblob) : Prop := lb_pfb a < lb_pfb b \/ (lb_pfb a = lb_pfb b /\ lb_j a < lb_j b).
+Definition key_lt (a b : lblob) : Prop :=
+  bytes_cmp (lb_ns a) (lb_ns b) = Lt \/ (lb_ns a = lb_ns b /\ pos_lt a b).
+(* disjoint, increasing share ranges *)
+Definition lb_range_before (a b : lblob) : Prop := lb_index a + lb_n a <= lb_index b.
+
+(* the insertion sort is stable: inserting an entry that precedes (in input order) all
+   entries of a list sorted by the lexicographic key keeps it sorted by that key *)
+Lemma lb_insert_key_sorted e : forall l, Forall (pos_lt e) l -> StronglySorted key_lt l ->
+  StronglySorted key_lt (lb_insert e l).
+Proof.
+  induction l as [|x tl IH]; intros Hp Hs; cbn [lb_insert]; [constructor; constructor|].
+  apply Forall_cons_iff in Hp as [Hpx Hp]. apply StronglySorted_inv in Hs as [Hs Hx].
+  change (b_ns (lb_blob e)) with (lb_ns e). change (b_ns (lb_blob x)) with (lb_ns x).
+  destruct (bytes_cmp (lb_ns e) (lb_ns x)) eqn:Ec.
+  - apply bytes_cmp_eq in Ec. constructor; [constructor; assumption|]. constructor.
+    + right. split; assumption.
+    + rewrite Forall_forall in *. intros y Hy. destruct (Hx y Hy) as [Hlt|[Heq _]].
+      * left. rewrite Ec. exact Hlt.
+      * right. split; [congruence|apply Hp, Hy].
+  - constructor; [constructor; assumption|]. constructor; [left; exact Ec|].
+    rewrite Forall_forall in *. intros y Hy. left. destruct (Hx y Hy) as [Hlt|[Heq _]].
+    + exact (bytes_cmp_trans _ _ _ Ec Hlt).
+    + rewrite <- Heq. exact Ec.
+  - constructor; [apply IH; assumption|].
+    apply (Permutation_Forall (Permutation_sym (lb_insert_perm e tl))). constructor; [|exact Hx].
+    left. apply cmp_gt_flip, Ec.
+Qed.
+
+Lemma lb_sort_key_sorted : forall l, StronglySorted pos_lt l -> StronglySorted key_lt (lb_sort l).
+Proof.
+  induction l as [|e l IH]; intros Hs; [constructor|]. apply StronglySorted_inv in Hs as [Hs He].
+  cbn [lb_sort fold_right]. apply lb_insert_key_sorted; [|apply IH, Hs].
+  exact (Permutation_Forall (Permutation_sym (lb_sort_perm l)) He).
+Qed.
+
+(* the enumeration of the blobs is in (transaction, position) order *)
+Lemma blobs_of_tx_pos pi : forall bs j,
+  StronglySorted pos_lt (blobs_of_tx pi j bs) /\
+  Forall (fun e => lb_pfb e = pi /\ j <= lb_j e) (blobs_of_tx pi j bs).
+Proof.
+  induction bs as [|b bs IH]; intros j; cbn [blobs_of_tx]; [split; constructor|].
+  destruct (IH (j + 1)) as [H1 H2]. split.
+  - constructor; [exact H1|]. eapply Forall_impl; [|exact H2]. intros x [Hp Hj]. right. cbn [lb_pfb lb_j]. lia.
+  - constructor; [cbn [lb_pfb lb_j]; lia|]. eapply Forall_impl; [|exact H2]. intros x [Hp Hj]. lia.
+Qed.
+
+Lemma all_blobs_pos : forall btxs pi,
+  StronglySorted pos_lt (all_blobs pi btxs) /\ Forall (fun e => pi <= lb_pfb e) (all_blobs pi btxs).
+Proof.
+  induction btxs as [|t tl IH]; intros pi; cbn [all_blobs]; [split; constructor|].
+  destruct (IH (pi + 1)) as [H1 H2]. destruct (blobs_of_tx_pos pi (btx_blobs t) 0) as [B1 B2]. split.
+  - apply StronglySorted_app_intro; [exact B1|exact H1|]. rewrite Forall_forall in *.
+    intros x y Hx Hy. left. destruct (B2 x Hx) as [-> _]. specialize (H2 y Hy). cbn beta in H2. lia.
+  - apply Forall_app. split.
+    + eapply Forall_impl; [|exact B2]. intros x [-> _]. lia.
+    + eapply Forall_impl; [|exact H2]. intros x Hx. cbn beta in Hx. lia.
+Qed.
+
+(* assign only changes the index field *)
+Lemma assign_Forall_key thr (P : lblob -> Prop) :
+  (forall a a', lkey a = lkey a' -> P a -> P a') ->
+  forall l c, Forall P l -> Forall P (assign thr c l).
+Proof.
+  intros HP. induction l as [|e l IH]; intros c H; [constructor|]. apply Forall_cons_iff in H as [He H].
+  cbn [assign]. constructor; [|apply IH, H]. exact (HP e _ eq_refl He).
+Qed.
+
+Lemma assign_sorted_key thr (R : lblob -> lblob -> Prop) :
+  (forall a b a' b', lkey a = lkey a' -> lkey b = lkey b' -> R a b -> R a' b') ->
+  forall l c, StronglySorted R l -> StronglySorted R (assign thr c l).
+Proof.
+  intros HR. induction l as [|e l IH]; intros c Hs; [constructor|]. apply StronglySorted_inv in Hs as [Hs He].
+  cbn [assign]. constructor; [apply IH, Hs|].
+  apply assign_Forall_key; [intros a a' Ha; apply HR; [reflexivity|exact Ha]|].
+  eapply Forall_impl; [|exact He]. intros y. apply HR; reflexivity.
+Qed.
+
+Lemma key_lt_lkey a b a' b' : lkey a = lkey a' -> lkey b = lkey b' -> key_lt a b -> key_lt a' b'.
+Proof.
+  unfold lkey, key_lt, pos_lt, lb_ns. intros Ha Hb. injection Ha as -> -> ->. injection Hb as -> -> ->. tauto.
+Qed.
+
+Lemma assign_ranges thr : 1 <= thr -> forall l c, StronglySorted lb_range_before (assign thr c l).
+Proof.
+  intros Ht. induction l as [|e l IH]; intros c; cbn [assign]; constructor; [apply IH|].
+  eapply Forall_impl; [|apply assign_index_le, Ht]. intros x [Hx _]. unfold lb_range_before. cbn [lb_index lb_n]. exact Hx.
+Qed.
+
+Lemma assign_aligned thr : 1 <= thr -> forall l c,
+  Forall (fun e => lb_index e mod subtree_width (lb_n e) thr = 0) (assign thr c l).
+Proof.
+  intros Ht. induction l as [|e l IH]; intros c; cbn [assign]; constructor; [|apply IH].
+  cbn [lb_index lb_n]. apply align_up_mod, subtree_width_pos, Ht.
+Qed.
+
+(* the placed blobs: ordered by (namespace, transaction, position in the transaction);
+   ranges increasing and pairwise disjoint; every index a multiple of the subtree width *)
+Theorem placed_order thr normals btxs : 1 <= thr ->
+  let placed := lay_placed thr normals btxs in
+  StronglySorted key_lt placed /\ StronglySorted lb_range_before placed /\
+  Forall (fun e => lb_index e mod subtree_width (lb_n e) thr = 0 /\ lb_n e = blob_share_count (lb_blob e)) placed.
+Proof.
+  intros Ht placed. unfold placed, lay_placed, sorted_blobs. split; [|split].
+  - apply (assign_sorted_key thr key_lt key_lt_lkey), lb_sort_key_sorted, (proj1 (all_blobs_pos btxs 0)).
+  - apply assign_ranges, Ht.
+  - pose proof (assign_aligned thr Ht (lb_sort (all_blobs 0 btxs)) (lay_start normals btxs)) as H1.
+    assert (H2 : Forall lb_counted (assign thr (lay_start normals btxs) (lb_sort (all_blobs 0 btxs)))).
+    { apply (assign_Forall thr (fun b n => n = blob_share_count b)).
+      exact (Permutation_Forall (Permutation_sym (lb_sort_perm _)) (all_blobs_counted btxs 0)). }
+    rewrite Forall_forall in *. intros e He. split; [apply H1, He|apply H2, He].
+Qed.
+
+(* the entry recording blob k of transaction i, with its key *)
+Lemma index_of_placed_key thr normals btxs i t k b :
+  nth_error btxs i = Some t -> nth_error (btx_blobs t) k = Some b ->
+  let placed := lay_placed thr normals btxs in
+  exists e, In e placed /\ lb_index e = index_of placed (N.of_nat i) (N.of_nat k) /\ lb_blob e = b /\
+            lb_pfb e = N.of_nat i /\ lb_j e = N.of_nat k.
+Proof.
+  intros Ht Hb placed. unfold index_of.
+  destruct (find (fun e => (lb_pfb e =? N.of_nat i) && (lb_j e =? N.of_nat k)) placed) as [e|] eqn:Ef.
+  - apply find_some in Ef. destruct Ef as [He Hk]. apply andb_true_iff in Hk as [Hk1 Hk2].
+    apply N.eqb_eq in Hk1, Hk2. exists e. split; [exact He|]. split; [reflexivity|].
+    split; [|split; assumption].
+    assert (Hin : In (lkey e) (map lkey placed)) by (apply in_map, He).
+    apply placed_keys in Hin. unfold lkey in Hin. apply all_blobs_keys in Hin.
+    destruct Hin as (i' & t' & k' & Hp & Hj & Ht' & Hb').
+    assert (i' = i) by lia. assert (k' = k) by lia. subst i' k'. congruence.
+  - exfalso.
+    assert (Hin : In (N.of_nat i, N.of_nat k, b) (map lkey placed)).
+    { apply placed_keys, all_blobs_keys. exists i, t, k. split; [lia|]. split; [reflexivity|]. split; assumption. }
+    apply in_map_iff in Hin. destruct Hin as (e & Hk & He).
+    pose proof (find_none _ _ Ef e He) as Hf. cbv beta in Hf.
+    unfold lkey in Hk. inversion Hk as [[H1 H2 H3]]. rewrite H1, H2, !N.eqb_refl in Hf. discriminate.
+Qed.
+
+Lemma blob_at_window s i b : blob_at s i b ->
+  firstn (length (blob_spec b)) (skipn (N.to_nat i) s) = blob_spec b /\ i + lenN (blob_spec b) <= lenN s.
+Proof.
+  intros (pre & post & -> & <-). split.
+  - apply firstn_skipn_mid; [reflexivity|unfold lenN; lia].
+  - rewrite !lenN_app. lia.
+Qed.
+
+(* ---- Square.WrappedPFBs on the layout ---- *)
+Lemma layout_wrapped_pfbs thr normals btxs : 1 <= thr -> Forall lay_btx_ok btxs ->
+  estimate thr normals btxs < 2097152 ->
+  wrapped_pfbs (layout thr normals btxs) = Ok (wrappers (lay_placed thr normals btxs) 0 btxs).
+Proof.
+  intros Ht Hok Hest. rewrite (layout_split thr normals btxs Ht Hok Hest). unfold wrapped_pfbs.
+  assert (Hpre : Forall (ns_below pfb_ns) (tx_run normals)).
+  { eapply Forall_impl; [|apply compact_spec_ix_ns, length_tx_ns]. intros s Hs. unfold ns_below. rewrite Hs.
+    apply bytes_cmp_lt_lex, tx_lt_pfb. }
+  assert (Hrun : Forall (ns_is pfb_ns) (pfb_run thr normals btxs)) by (apply compact_spec_ix_ns, length_pfb_ns).
+  rewrite (range_lookup pfb_ns _ _ _ Hpre Hrun (lay_rest_above thr normals btxs Hok)).
+  set (wr := wrappers (lay_placed thr normals btxs) 0 btxs).
+  destruct (pfb_run thr normals btxs) as [|p0 pr] eqn:Epr.
+  - change ((0 =? 0) && (0 =? 0)) with true. cbv iota.
+    destruct btxs as [|t0 tl]; [reflexivity|exfalso].
+    destruct (compact_spec_ix_cons pfb_ns wr) as (x & l & Hx); [unfold wr; cbn [wrappers]; discriminate|].
+    unfold pfb_run in Epr. fold wr in Epr. congruence.
+  - replace ((lenN (tx_run normals) =? 0) && (lenN (tx_run normals) + lenN (p0 :: pr) =? 0)) with false
+      by (rewrite lenN_cons; lia).
+    rewrite slice_mid. cbn [bind]. rewrite <- Epr. unfold pfb_run. fold wr.
+    apply parse_tx_run; [reflexivity|reflexivity|apply wrappers_nonempty|].
+    apply wrappers_stream_small; assumption.
+Qed.
+
+(* ---- everything C04 says, on the layout ---- *)
+Theorem layout_indexes thr normals btxs : 1 <= thr -> Forall lay_btx_ok btxs ->
+  estimate thr normals btxs < 2097152 ->
+  let sq := layout thr normals btxs in
+  let placed := lay_placed thr normals btxs in
+  exists ws, wrapped_pfbs sq = Ok ws /\ length ws = length btxs /\
+    forall p t, nth_error btxs p = Some t ->
+      exists w idx, nth_error ws p = Some w /\
+        unmarshal_index_wrapper w = Some (mk_iw (btx_tx t) idx type_id_indx) /\
+        length idx = length (btx_blobs t) /\
+        forall j b, nth_error (btx_blobs t) j = Some b ->
+          exists e, In e placed /\ lb_pfb e = N.of_nat p /\ lb_j e = N.of_nat j /\ lb_blob e = b /\
+            lb_n e = blob_share_count b /\
+            nth_error idx j = Some (lb_index e) /\
+            firstn (N.to_nat (blob_share_count b)) (skipn (N.to_nat (lb_index e)) sq) = blob_spec b /\
+            lb_index e + blob_share_count b <= lenN sq /\
+            lb_index e mod subtree_width (blob_share_count b) thr = 0.
+Proof.
+  intros Ht Hok Hest sq placed. exists (wrappers placed 0 btxs).
+  split; [apply layout_wrapped_pfbs; assumption|]. split; [apply wrappers_length|].
+  intros p t Hp. pose proof (wrappers_nth placed btxs 0 p) as Hw. rewrite Hp in Hw. cbn [option_map] in Hw.
+  replace (0 + N.of_nat p) with (N.of_nat p) in Hw by lia.
+  set (idx := indexes_of_tx placed (N.of_nat p) 0 (btx_blobs t)) in *.
+  exists (marshal_index_wrapper (btx_tx t) idx), idx. split; [exact Hw|].
+  pose proof (placed_index_small thr normals btxs Ht Hest) as Hsmall. fold placed in Hsmall.
+  split; [|split; [apply indexes_of_tx_length|]].
+  - apply index_wrapper_round_trip, wrapper_iw_ok; [apply indexes_of_tx_small, Hsmall|].
+    pose proof (in_stream_le _ _ (nth_error_In _ _ Hw)) as Hle.
+    pose proof (wrappers_stream_small thr normals btxs Ht Hest) as Hs. fold placed in Hs. unfold lenN in *. lia.
+  - intros j b Hb.
+    destruct (index_of_placed_key thr normals btxs p t j b Hp Hb) as (e & He & Hi & Hbl & Hpf & Hj). fold placed in He, Hi.
+    destruct (placed_order thr normals btxs Ht) as (_ & _ & Hal). fold placed in Hal.
+    rewrite Forall_forall in Hal. destruct (Hal e He) as [Hmod Hn]. rewrite Hbl in Hn.
+    destruct (layout_blob_at thr normals btxs Ht Hok Hest e He) as (Hat & Hbok & _ & _). rewrite Hbl in Hat, Hbok.
+    destruct (blob_at_window _ _ _ Hat) as [Hwin Hfit].
+    pose proof (blob_spec_length b Hbok) as Hlen. fold (blob_share_count b) in Hlen.
+    exists e. repeat split; try assumption.
+    + unfold idx. rewrite indexes_of_tx_nth.
+      replace (Nat.ltb j (length (btx_blobs t))) with true
+        by (symmetry; apply Nat.ltb_lt, nth_error_Some; congruence).
+      rewrite Hi. do 2 f_equal. lia.
+    + rewrite <- Hlen. unfold lenN. rewrite Nat2N.id. exact Hwin.
+    + rewrite <- Hlen. exact Hfit.
+    + rewrite <- Hn. exact Hmod.
+Qed.
+
+(* every placed blob is some transaction's blob (so the ordering / disjointness of
+   placed_order is about exactly the blobs of the kept blob transactions) *)
+Lemma placed_from_tx thr normals btxs e : In e (lay_placed thr normals btxs) ->
+  exists p t j, lb_pfb e = N.of_nat p /\ lb_j e = N.of_nat j /\ nth_error btxs p = Some t /\
+                nth_error (btx_blobs t) j = Some (lb_blob e).
+Proof.
+  intros He. assert (Hin : In (lkey e) (map lkey (lay_placed thr normals btxs))) by (apply in_map, He).
+  apply placed_keys in Hin. unfold lkey in Hin. apply all_blobs_keys in Hin.
+  destruct Hin as (i & t & k & Hp & Hj & Ht & Hb). exists i, t, k. repeat split; try assumption. lia.
+Qed.
+
+(* ---- the builder of the raw list, for the queries ---- *)
+Lemma new_builder_txs_corr raws max thr b : 1 <= thr -> c07_raws_ok raws ->
+  new_builder_txs max thr raws = Ok b ->
+  exists normals btxs, split_ordered false raws [] [] = Some (normals, btxs) /\
+    corr (Z.to_N max) thr b normals btxs.
+Proof.
+  intros Ht Hraws H. unfold new_builder_txs in H. destruct (negb (new_builder_ok max)); [discriminate|].
+  pose proof (construct_loop_spec (Z.to_N max) thr Ht raws (empty_builder (Z.to_N max) thr) false [] []
+                (corr_empty _ _) Hraws) as S.
+  destruct (split_ordered false raws [] []) as [[normals btxs]|]; [|congruence].
+  destruct (estimate thr normals btxs <=? Z.to_N max * Z.to_N max); [|congruence].
+  destruct S as (b' & E & C). rewrite E in H. injection H as <-. exists normals, btxs. split; [reflexivity|exact C].
+Qed.
+
+Lemma construct_builder raws max thr sq : construct raws max thr = Ok sq ->
+  exists b b', new_builder_txs max thr raws = Ok b /\ export b = Ok (b', sq).
+Proof.
+  unfold construct. destruct (new_builder_txs max thr raws) as [b| |]; cbn [bind]; try discriminate.
+  destruct (export b) as [[b' sq']| |]; cbn [bind snd]; try discriminate.
+  intros H. injection H as <-. exists b, b'. split; reflexivity.
+Qed.
+
+(* BlobShareRange of blob j of the p-th blob transaction = [recorded index, + share count) *)
+Lemma corr_blob_share_range raws max thr b normals btxs e : 1 <= thr -> (max <= 1024)%Z ->
+  new_builder_txs max thr raws = Ok b -> corr (Z.to_N max) thr b normals btxs ->
+  In e (lay_placed thr normals btxs) ->
+  blob_share_range raws (Z.of_nat (length normals) + Z.of_N (lb_pfb e)) (Z.of_N (lb_j e)) max thr
+  = Ok (lb_index e, lb_index e + lb_n e).
+Proof.
+  intros Ht Hmax Hnb C He.
+  destruct (export_corr (Z.to_N max) thr b normals btxs Ht (max_side_small max Hmax) C) as (b' & E).
+  rewrite <- (corr_place _ _ _ _ _ Ht C) in He. apply in_map_iff in He. destruct He as ([e' i] & <- & Hin).
+  pose proof (blob_share_range_spec raws max thr b b' _ e' i Ht Hnb (corr_el_ok _ _ _ _ _ C) E Hin) as R.
+  unfold to_lbi. cbn [fst snd lb_pfb lb_j lb_index lb_n].
+  rewrite (co_txs _ _ _ _ _ C) in R. unfold lenN in R. rewrite nat_N_Z in R. rewrite R.
+  assert (Hi : i < 4294967296).
+  { pose proof (corr_fits _ _ _ _ _ Ht C) as Hfit. pose proof (max_side_small max Hmax) as Hm.
+    assert (Hest : estimate thr normals btxs < 2097152) by lia.
+    pose proof (placed_index_small thr normals btxs Ht Hest) as Hs.
+    rewrite <- (corr_place _ _ _ _ _ Ht C) in Hs. rewrite Forall_map in Hs. rewrite Forall_forall in Hs.
+    specialize (Hs _ Hin). unfold to_lbi in Hs. cbn [lb_index snd] in Hs. lia. }
+  rewrite (u32_small i Hi). reflexivity.
+Qed.
+
+(* ---- C04 for Construct ---- *)
+Theorem construct_indexes raws max thr sq : 1 <= thr -> (max <= 1024)%Z -> c07_raws_ok raws ->
+  construct raws max thr = Ok sq ->
+  exists normals btxs ws placed,
+    split_ordered false raws [] [] = Some (normals, btxs) /\
+    wrapped_pfbs sq = Ok ws /\ length ws = length btxs /\
+    StronglySorted key_lt placed /\ StronglySorted lb_range_before placed /\
+    (forall e, In e placed -> exists p t j, lb_pfb e = N.of_nat p /\ lb_j e = N.of_nat j /\
+                 nth_error btxs p = Some t /\ nth_error (btx_blobs t) j = Some (lb_blob e)) /\
+    forall p t, nth_error btxs p = Some t ->
+      exists w idx, nth_error ws p = Some w /\
+        unmarshal_index_wrapper w = Some (mk_iw (btx_tx t) idx type_id_indx) /\
+        length idx = length (btx_blobs t) /\
+        forall j b, nth_error (btx_blobs t) j = Some b ->
+          exists e, In e placed /\ lb_pfb e = N.of_nat p /\ lb_j e = N.of_nat j /\ lb_blob e = b /\
+            lb_n e = blob_share_count b /\
+            nth_error idx j = Some (lb_index e) /\
+            firstn (N.to_nat (blob_share_count b)) (skipn (N.to_nat (lb_index e)) sq) = blob_spec b /\
+            lb_index e + blob_share_count b <= lenN sq /\
+            lb_index e mod subtree_width (blob_share_count b) thr = 0 /\
+            blob_share_range raws (Z.of_nat (length normals + p)) (Z.of_nat j) max thr
+              = Ok (lb_index e, lb_index e + blob_share_count b).
+Proof.
+  intros Ht Hmax Hraws H.
+  destruct (construct_ok_inv raws max thr sq Ht Hmax Hraws H) as (normals & btxs & Hs & -> & Hok & _ & _ & Hest).
+  pose proof (c07_btxs_lay _ Hok) as Hlay.
+  destruct (construct_builder raws max thr _ H) as (b & b' & Hnb & _).
+  destruct (new_builder_txs_corr raws max thr b Ht Hraws Hnb) as (n2 & bt2 & Hs2 & C).
+  rewrite Hs in Hs2. injection Hs2 as <- <-.
+  destruct (layout_indexes thr normals btxs Ht Hlay Hest) as (ws & Hw & Hwl & Hall).
+  destruct (placed_order thr normals btxs Ht) as (Hk & Hr & _).
+  exists normals, btxs, ws, (lay_placed thr normals btxs).
+  split; [exact Hs|]. split; [exact Hw|]. split; [exact Hwl|]. split; [exact Hk|]. split; [exact Hr|].
+  split; [intros e He; exact (placed_from_tx thr normals btxs e He)|].
+  intros p t Hp. destruct (Hall p t Hp) as (w & idx & Hnw & Hun & Hli & Hblobs).
+  exists w, idx. split; [exact Hnw|]. split; [exact Hun|]. split; [exact Hli|].
+  intros j b Hb. destruct (Hblobs j b Hb) as (e & He & Hpf & Hj & Hbl & Hn & Hi & Hwin & Hfit & Hmod).
+  exists e. repeat split; try assumption.
+  pose proof (corr_blob_share_range raws max thr b normals btxs e Ht Hmax Hnb C He) as R.
+  rewrite Hpf, Hj, Hn, !nat_N_Z in R. rewrite Nat2Z.inj_add. exact R.
+Qed.
+
+(* ---- C04 for Build (all of it except the BlobShareRange query, which takes the list of
+   kept transactions) ---- *)
+Theorem build_indexes raws max thr sq kept : 1 <= thr -> (max <= 1024)%Z -> c07_raws_ok raws ->
+  build raws max thr = Ok (sq, kept) ->
+  exists normals btxs ws placed,
+    keep (Z.to_N max * Z.to_N max) thr raws [] [] [] [] = Some (normals, btxs, kept) /\
+    wrapped_pfbs sq = Ok ws /\ length ws = length btxs /\
+    StronglySorted key_lt placed /\ StronglySorted lb_range_before placed /\
+    (forall e, In e placed -> exists p t j, lb_pfb e = N.of_nat p /\ lb_j e = N.of_nat j /\
+                 nth_error btxs p = Some t /\ nth_error (btx_blobs t) j = Some (lb_blob e)) /\
+    forall p t, nth_error btxs p = Some t ->
+      exists w idx, nth_error ws p = Some w /\
+        unmarshal_index_wrapper w = Some (mk_iw (btx_tx t) idx type_id_indx) /\
+        length idx = length (btx_blobs t) /\
+        forall j b, nth_error (btx_blobs t) j = Some b ->
+          exists e, In e placed /\ lb_pfb e = N.of_nat p /\ lb_j e = N.of_nat j /\ lb_blob e = b /\
+            lb_n e = blob_share_count b /\
+            nth_error idx j = Some (lb_index e) /\
+            firstn (N.to_nat (blob_share_count b)) (skipn (N.to_nat (lb_index e)) sq) = blob_spec b /\
+            lb_index e + blob_share_count b <= lenN sq /\
+            lb_index e mod subtree_width (blob_share_count b) thr = 0.
+Proof.
+  intros Ht Hmax Hraws H.
+  destruct (build_ok_inv raws max thr sq kept Ht Hmax Hraws H) as (normals & btxs & Hs & -> & Hok & _ & _ & Hest).
+  pose proof (c07_btxs_lay _ Hok) as Hlay.
+  destruct (layout_indexes thr normals btxs Ht Hlay Hest) as (ws & Hw & Hwl & Hall).
+  destruct (placed_order thr normals btxs Ht) as (Hk & Hr & _).
+  exists normals, btxs, ws, (lay_placed thr normals btxs).
+  split; [exact Hs|]. split; [exact Hw|]. split; [exact Hwl|]. split; [exact Hk|]. split; [exact Hr|].
+  split; [intros e He; exact (placed_from_tx thr normals btxs e He)|exact Hall].
+Qed.
